@@ -16,7 +16,7 @@ mkdir -p $W/$CRATE/tests
 cp $DEMO $W/$CRATE/tests/seed_demo_$N.$EXT
 cd $W
 cargo test --offline -p $CRATE $FEATURES --test seed_demo_$N > /tmp/sc/$P-$N.unchanged.log 2>&1; R0=$?
-git apply $SRC/patch-$N.diff || { echo "patch does not apply"; exit 8; }
+git apply $SRC/patch-$N.diff || { echo "patch does not apply"; cd /; git -C /repo worktree remove --force $W >/dev/null 2>&1; exit 8; }
 cargo test --offline -p $CRATE $FEATURES --test seed_demo_$N > /tmp/sc/$P-$N.patched.log 2>&1; R1=$?
 rm -f $W/$CRATE/tests/seed_demo_$N.$EXT
 cargo test --offline -p $CRATE $FEATURES > /tmp/sc/$P-$N.suite.log 2>&1; R2=$?
